@@ -399,8 +399,14 @@ pub fn sweep(rep: &mut Report, judge: Judge) {
         let dir = scratch_dir("c01");
         let mut sources = source_family(&cfg, gi % 16 == 3);
         // exhaustive small strings for a slice of the grid (library writer is cheap)
-        // compression back-ends cost milliseconds per chunk (1 MiB brotli buffer): shorter bound there
-        let nmax_here = if comp == Comp::None { nmax } else { nmax.saturating_sub(2) };
+        // compression back-ends cost milliseconds per chunk (1 MiB brotli buffer): shorter bound there;
+        // the maximum levels (zstd 22, lzma 9: hundreds of MB of encoder state per chunk) only see
+        // the boundary family and the strings up to length 2
+        let heavy = matches!(comp, Comp::Zstd(l) if l > 15) || matches!(comp, Comp::Lzma(l) if l > 6);
+        let nmax_here = if comp == Comp::None { nmax } else if heavy { 2 } else { nmax.saturating_sub(2) };
+        if heavy {
+            sources.retain(|s| s.len() <= 40);
+        }
         for n in 0..=nmax_here {
             for idx in 0..count_strings(alpha_ref, n) {
                 sources.push(nth_string(alpha_ref, n, idx));
